@@ -5,6 +5,7 @@ Domain classes (value grids are in mc/props/c06.py / c08.py):
   N  non-negative including 0
   P  strictly positive
   S  probability vectors (components sum to 1)
+  T  tolerance ladder: strictly positive values spaced around 1e-8 absolute / 1e-5 relative
 A metric is judged only on the classes listed for it.  "zero_ok" adds the
 zero-containing variants of its classes for the *finiteness* axiom (the
 decorated metrics must stay finite there).
@@ -38,10 +39,10 @@ DECORATED = set(NAMES) - R_CLASS - N_CLASS
 def domain_classes(name):
     """Classes on which the closed form / the axioms are judged."""
     if name in R_CLASS:
-        return ["R", "N", "P", "S"]
+        return ["R", "N", "P", "S", "T"]
     if name in N_CLASS:
-        return ["N", "P", "S"]
-    return ["P", "S"]
+        return ["N", "P", "S", "T"]
+    return ["P", "S", "T"]
 
 
 def row(name):
